@@ -155,9 +155,9 @@ def sensitivity(args):
            "summary": {"mutants": len(results), "detected": sum(1 for r in results if r.get("status") == "detected"),
                        "by_quick": sum(1 for r in results if r.get("detected_by") == "quick"),
                        "missed": [r["mutant"] for r in results if r.get("status") == "MISSED"]}}
-    if not args.only:
-        with open(os.path.join(VERIF, "selftest", "RESULTS.json"), "w") as f:
-            json.dump(out, f, indent=1)
+    name = "RESULTS.json" if not args.only else "RESULTS-partial.json"
+    with open(os.path.join(VERIF, "selftest", name), "w") as f:
+        json.dump(out, f, indent=1)
     print(json.dumps(out["summary"]))
     return 0 if not out["summary"]["missed"] else 1
 
